@@ -85,8 +85,20 @@ func pickPred(kind int) AssertErrorFunc {
 		return ErrorHasPrefix("bo")
 	case 5:
 		return ErrorHasSuffix("xx")
+	case 6:
+		return ErrorMatch("^bo+m$")
+	case 7:
+		return ErrorMatch("ab.")
+	case 8:
+		return ErrorMatch("ab(.") // not a valid pattern: reported through the compile error
 	}
 	return nil
+}
+
+// knownErrorMatch names the one class of C20 violations that is a recorded finding (known_findings.json): a valid
+// ErrorMatch pattern that does not match the error text makes the predicate return false without reporting.
+func knownErrorMatch(pred, mode, before, after int, applicable bool) {
+	vKnown("C20/errormatch-mismatch-not-reported", pred == 7 && (mode == 2 || mode == 3) && before < 2 && after < 2 && applicable)
 }
 
 // predHolds: does the predicate accept the error produced by a scripted call in the given mode?
@@ -95,9 +107,9 @@ func predHolds(kind int, mode int) bool {
 	switch kind {
 	case 1:
 		return hasErr
-	case 2, 4:
+	case 2, 4, 6:
 		return mode == 2 || mode == 3 // the panic error has another text
-	case 3, 5:
+	case 3, 5, 7, 8:
 		return false
 	}
 	return false
@@ -129,7 +141,7 @@ func hookU(kind int) func(index int, c *CaseText[scriptU]) error {
 
 // one case through MarshalText: failure reported iff the independent per-case oracle says so
 //
-//verif:harness C20 quick mode=0..4 pred=0..5 cons=0..2 hooks=0..15
+//verif:harness C20 quick mode=0..4 pred=0..8 cons=0..2 hooks=0..15
 func H_C20_marshalText(mode int, pred int, cons int, hooks int) {
 	if pred >= 2 && mode == 4 {
 		return // the text of a panic error contains a stack trace: only AnyError is meaningful there
@@ -171,13 +183,14 @@ func H_C20_marshalText(mode int, pred int, cons int, hooks int) {
 		}
 	}
 	vAssert("no-panic-escapes", !escaped)
+	knownErrorMatch(pred, mode, before, after, cons == 0 || cons == int(OnlyMarshal))
 	vAssert("failure-reported-iff-case-not-satisfied", (rec.errs > 0) == want)
 	vAssert("no-failnow-for-a-marshaler-type", rec.failNow == 0)
 	vReach("failing-case", want)
 	vReach("passing-case", !want)
 }
 
-//verif:harness C20 quick mode=0..4 pred=0..5 cons=0..2 hooks=0..15
+//verif:harness C20 quick mode=0..4 pred=0..8 cons=0..2 hooks=0..15
 func H_C20_unmarshalText(mode int, pred int, cons int, hooks int) {
 	if pred >= 2 && mode == 4 {
 		return
@@ -213,6 +226,7 @@ func H_C20_unmarshalText(mode int, pred int, cons int, hooks int) {
 		}
 	}
 	vAssert("no-panic-escapes", !escaped)
+	knownErrorMatch(pred, mode, before, after, cons == 0 || cons == int(OnlyUnmarshal))
 	vAssert("failure-reported-iff-case-not-satisfied", (rec.errs > 0) == want)
 	vReach("failing-case", want)
 	vReach("passing-case", !want)
